@@ -98,6 +98,16 @@ def validUtf8 : Bytes → Bool
 
 def ValidUtf8 (s : Bytes) : Prop := validUtf8 s = true
 
+/-- every `E3` byte is followed by two continuation bytes inside the text (true of valid UTF-8) -/
+def nd : Bytes → Bool
+  | [] => true
+  | 0xE3 :: b1 :: b2 :: r => isCont b1 && isCont b2 && nd r
+  | 0xE3 :: _ => false
+  | _ :: r => nd r
+
+/-- `fold ∘ stripBlank`: the sequence of non-blank characters, ASCII letters lower-cased -/
+def foldStrip (c : Bytes) : Bytes := asciiLower (stripBlank c)
+
 /-- first index of byte `c` (memchr) -/
 def findByte (c : UInt8) : Bytes → Option Nat
   | [] => none
